@@ -398,8 +398,13 @@ Proof.
   destruct io; [apply Good_refl|].
   eapply Good_trans; [|apply IH].
   destruct (cached s j) as [x|]; [|apply Good_refl].
-  apply Good_set_job. intros y _ Hi. split; [apply job_set_mono|].
-  apply job_set_inv; auto; intros; discriminate.
+  assert (Hone : forall s0, Good s0 (set_job s0 j (fun x0 => fst (job_set x0 (Some i) PPutFailed)))).
+  { intros s0. apply Good_set_job. intros y _ Hi. split; [apply job_set_mono|].
+    apply job_set_inv; auto; intros; discriminate. }
+  destruct (kind x); try apply Hone.
+  eapply Good_trans; [|apply Good_set_job; intros y _ Hi; split; [apply j_uncache_mono|apply j_uncache_inv; exact Hi]].
+  eapply Good_trans; [|apply Hone].
+  destruct (ready x); [apply Good_refl|apply Good_same; apply sj_with_sem].
 Qed.
 
 Lemma good_do_feeds : forall fs k fa io s, Good s (fst (fst (do_feeds fs k fa io s))).
@@ -494,6 +499,11 @@ Proof.
   - apply good_do_next.
   - apply good_do_tick_close.
   - apply good_do_join_shutdown.
+  - unfold do_apply_q. pose proof (good_do_apply s0 soft hard lost slot) as H.
+    destruct (do_apply s0 soft hard lost slot) as [s1 r]. cbn [fst] in H.
+    destruct r; cbn [fst]; exact H.
+  - unfold do_apply_unsendable. destruct (negb (pstate s0 =? 0)); [apply Good_refl|].
+    destruct (_ && _); apply Good_refl.
 Qed.
 
 Lemma AllJ_init c : AllJ (init c).
